@@ -9,7 +9,7 @@ pub struct Ed25519KeyHash(pub u64);
 impl Clone for Ed25519KeyHash { #[verifier::external_body] fn clone(&self) -> (r: Ed25519KeyHash) ensures r == *self { unimplemented!() } }
 #[derive(Clone)]
 pub enum CborSetType { Tagged, Untagged }
-opaque_types!(ScriptHash, Anchor, DRep, MoveInstantaneousRewardsCert, VRFKeyHash, GenesisHash);
+opaque_types!(ScriptHash, Anchor, DRep, MoveInstantaneousRewardsCert, VRFKeyHash, GenesisHash, VotesOfVoter);
 clone_eq!(Credential);
 // certificates whose fields the signer table reaches only through accessors (ASSUMED accessor contracts: plain field reads)
 #[verifier::external_body] pub struct PoolParams { _p: core::marker::PhantomData<u8> }
